@@ -115,12 +115,24 @@ func ScratchDir(tag string) string {
 }
 
 // NewBackend creates a storage back end and its cleanup function.
+var fileDirSpelling int64
+
 func NewBackend(kind Backend) (nodeenrollment.Storage, func()) {
 	ctx := context.Background()
 	switch kind {
 	case File:
 		dir := ScratchDir("file")
-		s, err := file.New(ctx, file.WithBaseDirectory(dir))
+		// the application may spell its base directory in any way the OS accepts
+		spelled := dir
+		switch atomic.AddInt64(&fileDirSpelling, 1) % 4 {
+		case 1:
+			spelled = dir + string(filepath.Separator)
+		case 2:
+			spelled = filepath.Dir(dir) + "//" + filepath.Base(dir)
+		case 3:
+			spelled = filepath.Dir(dir) + "/./" + filepath.Base(dir)
+		}
+		s, err := file.New(ctx, file.WithBaseDirectory(spelled))
 		if err != nil {
 			panic(err)
 		}
